@@ -114,7 +114,6 @@ def run(check):
     # --- known findings: stored witnesses, replayed on the implementation
     witnesses = {
         "allcaps-special-case": ("variant", "camelCase", "URL"),
-        "unicode-case-mapping": ("variant", "lowercase", "É"),
         "snake-splits-fields": ("field", "snake_case", "fooBar"),
         "pascal-on-variant-with-underscore": ("variant", "PascalCase", "Foo_Bar"),
     }
@@ -123,6 +122,22 @@ def run(check):
         want = impl_serde.get((pos, rule, s_)) or norm(runner([{"op": "serde", "pos": pos, "rule": rule, "s": s_}])[0], "serde")
         if got != want:
             check.known(kid, {"position": pos, "rule": rule, "ident": s_, "typeshare": got, "serde": want})
+    # --- repaired classes: their stored witnesses must give serde's name now; a difference means the defect has returned
+    repaired = {
+        "unicode-case-mapping": ("e0753c7", [("variant", "lowercase", "É"), ("variant", "lowercase", "Éclair"),
+                                             ("variant", "UPPERCASE", "MyÉnum"), ("field", "UPPERCASE", "éclair"),
+                                             ("field", "UPPERCASE", "straße"), ("variant", "UPPERCASE", "ǅ")]),
+    }
+    for kid, (commit, ws) in repaired.items():
+        for pos, rule, s_ in ws:
+            got = impl_ts.get((rule, s_)) or norm(runner([{"op": "rename", "rule": rule, "s": s_}])[0], "typeshare")
+            want = impl_serde.get((pos, rule, s_)) or norm(runner([{"op": "serde", "pos": pos, "rule": rule, "s": s_}])[0], "serde")
+            check.saw(("repaired", kid, pos, rule, s_))
+            check.count("repaired-witness")
+            if got != want and not any(v["failing_input_found"] for v in check.violations):
+                check.violation("the repaired class %s (fix %s) has returned: rename_all %s on %s %r gives %s, serde_derive gives %s"
+                                % (kid, commit, rule, pos, s_, got, want),
+                                case={"position": pos, "rule": rule, "ident": s_}, impl=got, model=want, failing_input=True)
     if not check.violations:
         ident_part(check, impl_serde)
     n_div = sum(1 for (rule, s_), got in impl_ts.items() if rule in RULES
@@ -130,7 +145,7 @@ def run(check):
     check.extra["divergences_from_serde_outside_conventional_names"] = n_div
     check.exhaustive = True
     check.extra["exhaustive_scope"] = "strings of length <= %d over 6 class representatives" % maxlen
-    check.assumptions += ["Unicode case mapping (char::is_uppercase, str::to_lowercase/uppercase) is a parameter of the model; its table for the alphabet is computed by Rust std on every run",
+    check.assumptions += ["Unicode case mapping (char::is_uppercase for the snake/kebab family; str::to_lowercase/uppercase are no longer used by rename_all_to_case since e0753c7) is a parameter of the model; its table for the alphabet is computed by Rust std on every run",
                           "serde's algorithm is the vendored serde_derive 1.0.214 internals/case.rs, compiled unchanged into the runner"]
 
 
